@@ -215,12 +215,17 @@ func parseGoVers(file string, data []byte) string {
 //
 // The lists returned are used in Create to avoid repeated calls to File.Lstat.
 func checkFiles(files []File) (cf CheckedFiles, validFiles []File, validSizes []int64) {
-	errPaths := make(map[string]struct{})
+	// errPaths records, for each path already reported, whether it was
+	// reported as invalid (true) or only as omitted (false). A path is
+	// reported at most once per kind, and a later invalid entry is still
+	// reported for a path that so far was only omitted (for example when
+	// the same path is listed twice and the first entry is a symbolic link).
+	errPaths := make(map[string]bool)
 	addError := func(path string, omitted bool, err error) {
-		if _, ok := errPaths[path]; ok {
+		if invalid, ok := errPaths[path]; ok && (invalid || omitted) {
 			return
 		}
-		errPaths[path] = struct{}{}
+		errPaths[path] = !omitted
 		fe := FileError{Path: path, Err: err}
 		if omitted {
 			cf.Omitted = append(cf.Omitted, fe)
